@@ -114,15 +114,25 @@ def corpus() -> dict[str, Any]:
     shares = [m for g in groups for m in g]
     tx = Tx(2, 0, [TxIn(OutPoint(b"\x11" * 32, 1), b"", 0xFFFFFFFE)], [TxOut(1000, b"\x00\x14" + b"\x22" * 20)])
     psbt = Psbt.from_tx(tx)
+    from btclib import bip322  # noqa: PLC0415
+    from btclib.ecc import bms, ecies  # noqa: PLC0415
+
+    signed_texts = [bms.sign(b"msg", wif, a58).b64encode(), bip322.sign(b"msg", wif, a32).b64encode()]
+    xor = lambda key, data: bytes(a ^ key[k % len(key)] for k, a in enumerate(data))  # noqa: E731
+    try:
+        # a toy cipher of the documented shape: PKCS#7-padded to whole blocks, then xored with the key
+        signed_texts.append(ecies.encrypt(b"sixteen byte msg", PK1, lambda key, iv, data: xor(key, data + bytes([16 - len(data) % 16]) * (16 - len(data) % 16)), eph_prv_key=2))
+    except Exception:  # noqa: BLE001, S110
+        pass  # the cipher callback's shape is the caller's business; without an armor the sites still get damaged base64
     _CORPUS = {
         "xprv": xprv, "xpub": xpub, "tprv": tprv, "wif": wif, "addr58": [a58, ash], "addr32": [a32, atr, awsh, a32.upper()], "sp": [spa],
         "descriptor": desc, "miniscript": mini, "miniscript-tap": mini_tap, "uri": uris, "path": paths, "origin": origins,
         "bip39": [mn, mn24, mn_it, mn_ja], "electrum": [em], "old-electrum": [om], "slip39": shares,
-        "hex": [tx.serialize(include_witness=True).hex(), psbt.serialize().hex()], "b64": [psbt.b64encode()],
+        "hex": [tx.serialize(include_witness=True).hex(), psbt.serialize().hex()], "b64": [psbt.b64encode(), *signed_texts],
         "pubkey": [PK1, PK2, "04" + X1 + "483ada7726a3c4655da4fbfc0e1108a8fd17b448a68554199c47d08ffb10d4b8", X1],
         "prvkey": ["00" * 31 + "01", wif, xprv], "amount": ["0.1", "21000000", "0.00000001", "1", "1e-8", "0.10000000", "1.5", "0.00001"],
         "entropy": ["01" * 64, "0" * 128, "0x" + "ab" * 16, "1" * 256], "network": ["mainnet", "testnet", "regtest", "signet", "testnet4"],
-        "hexseed": ["00" * 16, "ab" * 32],
+        "hexseed": ["00" * 16, "ab" * 32], "lang": ["en", "it", "es", "fr", "ja", "ko", "cs", "pt", "zh-s", "zh-t"],
     }
     return _CORPUS
 
@@ -242,6 +252,11 @@ def entry_points() -> dict[str, list[tuple[str, Callable[[Any], Any], bool]]]:
             ("bip39.mnemonic_from_entropy/lang", lambda t: bip39.mnemonic_from_entropy(b"\x00" * 16, t), False), ("bip39.entropy_from_mnemonic/lang", lambda t: bip39.entropy_from_mnemonic(c["bip39"][0], t), False),
         ],
         "hexseed": [("electrum.old_mnemonic_from_hex_seed", electrum.old_mnemonic_from_hex_seed, False)],
+        "lang": [
+            ("bip39.mnemonic_from_entropy/lang", lambda t: bip39.mnemonic_from_entropy(b"\x00" * 16, t), False), ("bip39.entropy_from_mnemonic/lang", lambda t: bip39.entropy_from_mnemonic(c["bip39"][0], t), False),
+            ("electrum.mnemonic_from_entropy/lang", lambda t: electrum.mnemonic_from_entropy("standard", 1 << 130, t), False), ("electrum.entropy_from_mnemonic/lang", lambda t: electrum.entropy_from_mnemonic(c["electrum"][0], t), False),
+            ("dispatch.seed_type_from_mnemonic/lang", lambda t: dispatch.seed_type_from_mnemonic(c["bip39"][0], t), False), ("bip85.mnemonic_from_root_key/lang", lambda t: bip85.mnemonic_from_root_key(xprv, 12, t), False),
+        ],
     }
 
 
